@@ -164,7 +164,12 @@ def make_objects(M, desc, param_override=None, node_names=None):
     for l in desc["links"]:
         g = lambda a, l=l: po.get((l["id"], a), l[a])  # noqa: E731
         vals = dict(zip(ORDER["Link"], (l["N"], g("lam"), g("L"), g("rho_max"), g("rho_crit"), g("v_free"), g("a"), g("beta"), l["name"])))
-        if FORMS["rng"] is not None and FORMS["rng"].random() < 0.08:
+        if l.get("N_dtype"):
+            # the segment counts of a down-cast link table (`table["segments"].astype(np.uint8)`)
+            import numpy as _np
+
+            vals["nb_segments"] = getattr(_np, l["N_dtype"])(l["N"])
+        elif FORMS["rng"] is not None and FORMS["rng"].random() < 0.08:
             # the segment count read from a NumPy link table (`np.ceil(length / seg).astype(int)[i]`): a NumPy integer scalar
             import numpy as _np
 
@@ -198,7 +203,7 @@ def make_objects(M, desc, param_override=None, node_names=None):
             links[l["id"]] = callform(UK.WorkZoneLink, ORDER["Link"], vals, 8,
                                       extra={"capacity": l.get("user_cap"), "reorder": bool(l.get("user_reorder"))})
         else:
-            if FORMS["rng"] is not None and l["N"] > 1 and FORMS["rng"].random() < 0.07:
+            if FORMS["rng"] is not None and l["N"] > 1 and not l.get("N_dtype") and FORMS["rng"].random() < 0.07:
                 # re-discretised after construction: built as ONE segment, the segment count (a plain public attribute, read
                 # at every step) raised afterwards - grid refinement of a live link
                 links[l["id"]] = callform(_maybe_falsy(M.Link), ORDER["Link"], dict(vals, nb_segments=1), 8)
